@@ -880,7 +880,8 @@ def r116(rep: Report, ctx: Ctx) -> None:
              "it has not been walked yet", 6)
     check_table(rep, ctx, "R1.23", TABLE, [
         "update_puml_graph_with_event_node", "handle_logic_node_cases",
-        "handle_rotate_path"])
+        "handle_rotate_path", "handle_logic_list_next_path",
+        "handle_reach_logic_merge_point"])
     rep.rule("R1.19", "Event -> Node keeps identity, type, loop references "
              "and flags MERGE from the predecessor sets", 4)
     check_table(rep, ctx, "R1.19", TABLE, ["create_node_from_event"])
